@@ -79,6 +79,9 @@ class _GroupElem(ABC):
             assert (
                 connect.ndim == 2 and connect.shape[1] == nPe
             ), "connect must be a (Ne, nPe) array."
+        # node numbers as 64-bit signed integers whatever the integer type of the given array
+        # (dof numbers node * dof_n + d are computed from it and must not wrap around)
+        connect = np.asarray(connect, dtype=np.int64)
         self.__connect = connect
         self.__connect_n_e: sparse.csr_matrix = None
 
@@ -379,7 +382,7 @@ class _GroupElem(ABC):
 
         for d in range(dof_n):
             columns = np.arange(d, ndof, dof_n)
-            assembly[:, columns] = np.array(connect) * dof_n + d
+            assembly[:, columns] = np.asarray(connect, dtype=np.int64) * dof_n + d
 
         return assembly
 
